@@ -25,18 +25,37 @@ def mutants_table():
 
 def seeded_table():
     rows = []
+    before = {}
+    bp = os.path.join(ROOT, "seeded", "BEFORE_FEEDBACK.json")
+    if os.path.exists(bp):
+        before = json.load(open(bp)).get("results", {})
     for m in sorted(glob.glob(os.path.join(ROOT, "seeded", "*", "meta.json"))):
         d = json.load(open(m))
         al = ", ".join(f"{a['check']} ({a['signatures'][0] if a['signatures'] else ''})" for a in d.get("alarms", [])) or "-"
-        rows.append(f"| {d['name']} | {d['property']} | {d.get('needs', '')} | {'yes' if d.get('confirmed') else 'NO'} | {al} | {'yes' if d.get('caught_by_target_property_check') else ('other check only' if d.get('caught_by_any_check') else 'MISSED')} |")
+        b = before.get(d['name'], {})
+        bf = "?" if not b else ("yes" if b.get("caught_by_target_check_before_feedback") else "no")
+        rows.append(f"| {d['name']} | {d['property']} | {d.get('needs', '')} | {'yes' if d.get('confirmed') else 'NO'} | {al} | {'yes' if d.get('caught_by_target_property_check') else ('other check only' if d.get('caught_by_any_check') else 'MISSED')} | {bf} |")
     if not rows:
         return "(none yet)\n"
-    return "\n".join(["| change | property | needs, to manifest | confirmed (98 tests pass, demo fails/passes) | checks that alarm (quick tier) | caught by its property's check |", "|---|---|---|---|---|---|"] + rows) + "\n"
+    n = len(rows)
+    nb = sum(1 for r in rows if r.rstrip().endswith("| yes |"))
+    tail = f"\nOf {n} confirmed changes, the check of the targeted property at the commit before any sub-agent change had been seen (last column) caught {nb}; with the workloads strengthened in response (Deviations 4, 6, 8, 8a) all {n} are caught by the targeted property's own check.\n" if before else ""
+    return "\n".join(["| change | property | needs, to manifest | confirmed (98+3 tests pass, demo fails / passes without) | checks that alarm now (quick tier, all 18 run) | caught by its property's check now | ... and by that check before any feedback (9501b01) |", "|---|---|---|---|---|---|---|"] + rows) + "\n" + tail
+
+def refactors_table():
+    rows = []
+    for m in sorted(glob.glob(os.path.join(ROOT, "refactors", "*", "meta.json"))):
+        d = json.load(open(m))
+        al = ", ".join(a["check"] for a in d.get("alarms", [])) or "none"
+        rows.append(f"| {d['name']} | {d.get('lines_changed', '?')} | {'98 + 3 pass' if d.get('baseline_ok') else 'FAIL'} | {al} | {d.get('verdict')} |")
+    if not rows:
+        return "(none yet)\n"
+    return "\n".join(["| refactoring | diff lines | baseline tests | checks that alarm (quick tier, all 18 run) | verdict |", "|---|---|---|---|---|"] + rows) + "\n"
 
 def main():
     p = os.path.join(ROOT, "DESIGN.md")
     s = open(p).read()
-    for tag, fn in (("MUTANTS", mutants_table), ("SEEDED", seeded_table)):
+    for tag, fn in (("MUTANTS", mutants_table), ("SEEDED", seeded_table), ("REFACTORS", refactors_table)):
         b, e = f"<!-- BEGIN:{tag} -->", f"<!-- END:{tag} -->"
         if b in s and e in s:
             s = s[:s.index(b) + len(b)] + "\n" + fn() + s[s.index(e):]
